@@ -71,8 +71,12 @@ def main():
             lines = [l for l in out.splitlines() if l.startswith(("VIOLATION", "  failed clauses", "KNOWN-FINDING", "MACHINERY", c + " "))]
             res["checks"][c] = {"exit": rc, "caught": rc == 1 and any(l.startswith("VIOLATION") for l in lines), "lines": lines[:6]}
         sh("git checkout -- . && git clean -fdq", cwd=wt)
-        rc_clean, _ = sh("/venv/bin/python -W ignore %s" % os.path.abspath(demo), cwd=wt, env=env, timeout=1800)
+        rc_clean, out_clean = sh("/venv/bin/python -W ignore %s" % os.path.abspath(demo), cwd=wt, env=env, timeout=1800)
+        if rc_clean != 0:      # once more (a heavily loaded machine can time a demo out)
+            rc_clean, out_clean = sh("/venv/bin/python -W ignore %s" % os.path.abspath(demo), cwd=wt, env=env, timeout=1800)
         res["demo_exit_clean"] = rc_clean
+        if rc_clean != 0:
+            res["demo_tail_clean"] = out_clean[-400:]
         res["confirmed"] = bool(rc_changed != 0 and rc_clean == 0 and ok)
         return res
     finally:
